@@ -1000,4 +1000,149 @@ theorem expandUser_agrees_with_optmanager (env : Env) (p : Str) :
         · rename_i heq; cases heq; exact absurd rfl hc
         · rfl
 
+/-! ### the remaining manager-free conversions and parameter defaults -/
+
+/-- a `Sequence[str]` parameter receives the comma-separated pieces, each stripped of surrounding whitespace -/
+theorem str_seq_arg (db : UniDb) (env : Env) (s : Str) :
+    parseArgT db env .strSeq s = some (.l ((splitComma s).map pyStrip)) := rfl
+
+/-- a cut specification receives the comma-separated pieces as they are -/
+theorem cut_spec_arg (db : UniDb) (env : Env) (s : Str) :
+    parseArgT db env .cutSpec s = some (.l (splitComma s)) := rfl
+
+/-- a marker: `true` ↦ `:default:`, `false` ↦ the empty marker, an emoji name ↦ itself, anything else is refused -/
+theorem marker_arg_exact (db : UniDb) (env : Env) (s : Str) :
+    parseArgT db env .marker s =
+      (if s = strTrueC then some (.s markerDefault) else if s = strFalseC then some (.s [])
+       else if MitmVerif.Gen.C45.emojiNames.contains s then some (.s s) else none) := rfl
+
+/-- a Choice parameter receives the text unchanged exactly when it is one of the options its command offers -/
+theorem choice_arg_exact (db : UniDb) (env : Env) (opts : List Str) (s : Str) :
+    parseArgT db env (.choice opts) s = (if opts.contains s then some (.s s) else none) := rfl
+
+private theorem splitComma_ne (s : Str) : splitComma s ≠ [] := by
+  cases s with
+  | nil => simp [splitComma]
+  | cons c r =>
+    simp only [splitComma]
+    split
+    · simp
+    · split <;> simp
+
+/-- splitting loses nothing: the pieces joined by commas are the text -/
+theorem split_comma_join (s : Str) : ((splitComma s).intersperse [44]).flatten = s := by
+  induction s with
+  | nil => rfl
+  | cons c r ih =>
+    simp only [splitComma]
+    split
+    · rename_i hc
+      have : c = 44 := by simpa using hc
+      subst this
+      cases hs : splitComma r with
+      | nil => exact absurd hs (splitComma_ne r)
+      | cons h t => simp [hs] at ih ⊢; exact ih
+    · cases hs : splitComma r with
+      | nil => exact absurd hs (splitComma_ne r)
+      | cons h t =>
+        simp only [hs] at ih ⊢
+        cases t with
+        | nil => simp at ih ⊢; exact ih
+        | cons h2 t2 => simp at ih ⊢; exact ih
+
+def dropDefaults (sig : SigD) : SigT := ⟨sig.params, sig.varargs⟩
+
+/-- **execute_without_defaults.** For command tables without default values the execution model with defaults is
+    the typed model of the theorems above. -/
+theorem execute_without_defaults (db : UniDb) (env : Env) (cmds : Str → Option SigT) (line : Str) :
+    executeD db env (fun n => (cmds n).map fun s => ⟨s.params, [], s.varargs⟩) line = executeT db env cmds line := by
+  unfold executeD executeT
+  cases (argTokens line).map unquote with
+  | nil => rfl
+  | cons name args =>
+    simp only
+    cases cmds name with
+    | none => rfl
+    | some sig =>
+      simp only [Option.map_some]
+      have hb : bindD ⟨sig.params, [], sig.varargs⟩ args.length = (bindTysT sig args.length).map fun t => (t, []) := by
+        unfold bindD bindTysT
+        simp only [List.length_nil, Nat.add_zero, Nat.zero_sub, List.drop_zero]
+        by_cases h1 : args.length < sig.params.length
+        · simp [h1]
+        · simp only [h1, if_false]
+          by_cases h2 : args.length ≤ sig.params.length
+          · have he : args.length = sig.params.length := by omega
+            simp only [h2, if_true, he, List.take_length]
+            cases sig.varargs with
+            | none => simp
+            | some t => simp
+          · simp only [h2, if_false]
+            have hne : ¬ (args.length == sig.params.length) = true := by simp; omega
+            cases sig.varargs with
+            | none => simp [hne]
+            | some t => simp
+      rw [hb]
+      cases bindTysT sig args.length with
+      | none => rfl
+      | some tys =>
+        simp only [Option.map_some]
+        cases collectT (List.zipWith (parseArgT db env) tys args) with
+        | none => rfl
+        | some as => simp
+
+/-- **defaults_fill_exactly_the_missing.** When fewer arguments are given than there are positional parameters, the
+    given ones are converted with the first types and exactly the LAST missing-many default values are appended:
+    the command is always called with one value per positional parameter. -/
+theorem defaults_fill_exactly_the_missing (sig : SigD) (n : Nat) (tys : List ArgTyT) (dflts : List TVal)
+    (hd : sig.defaults.length ≤ sig.params.length) (hn : n ≤ sig.params.length) (h : bindD sig n = some (tys, dflts)) :
+    tys = sig.params.take n ∧ dflts = sig.defaults.drop (sig.defaults.length - (sig.params.length - n)) ∧
+    tys.length + dflts.length = sig.params.length := by
+  unfold bindD at h
+  simp only at h
+  split at h
+  · cases h
+  · rename_i h1
+    simp only [hn, if_true, Option.some.injEq, Prod.mk.injEq] at h
+    obtain ⟨rfl, rfl⟩ := h
+    refine ⟨rfl, rfl, ?_⟩
+    simp only [List.length_take, List.length_drop]
+    omega
+
+/-- **execute_with_defaults_delivers.** For every line, environment and signature with default values: what the
+    command receives is the typed conversions of the unquoted argument tokens, one per token and in order, followed by
+    the default values `bind` supplies for the parameters no token was given for — and nothing else. -/
+theorem execute_with_defaults_delivers (db : UniDb) (env : Env) (cmds : Str → Option SigD) (line name : Str)
+    (vals : List TVal) (h : executeD db env cmds line = .call name vals) :
+    ∃ tok toks sig tys dflts conv, argTokens line = tok :: toks ∧ name = unquote tok ∧ cmds name = some sig ∧
+      bindD sig toks.length = some (tys, dflts) ∧ vals = conv ++ dflts ∧
+      List.zipWith (parseArgT db env) tys (toks.map unquote) = conv.map some := by
+  unfold executeD at h
+  cases ht : argTokens line with
+  | nil => simp [ht] at h
+  | cons tok toks =>
+    simp only [ht, List.map_cons] at h
+    cases hc : cmds (unquote tok) with
+    | none => simp [hc] at h
+    | some sig =>
+      simp only [hc, List.length_map] at h
+      cases hb : bindD sig toks.length with
+      | none => simp [hb] at h
+      | some td =>
+        obtain ⟨tys, dflts⟩ := td
+        simp only [hb] at h
+        cases hcol : collectT (List.zipWith (parseArgT db env) tys (toks.map unquote)) with
+        | none => simp [hcol] at h
+        | some as =>
+          simp only [hcol, ExecT.call.injEq] at h
+          obtain ⟨hn, hv⟩ := h
+          exact ⟨tok, toks, sig, tys, dflts, as, rfl, hn.symm, hn ▸ hc, hb, hv.symm, (collectT_eq_some _ _).mp hcol⟩
+
+example : executeD noDb ⟨none, fun _ => none⟩ (fun _ => some ⟨[.str, .str, .int], [.s [100], .i 7], none⟩) [116, 32, 120] =
+    .call [116] [.s [120], .s [100], .i 7] := by decide
+example : executeD noDb ⟨none, fun _ => none⟩ (fun _ => some ⟨[.str, .str, .int], [.s [100], .i 7], none⟩) [116] = .arity := by decide
+example : parseArgT noDb ⟨none, fun _ => none⟩ .strSeq [32, 97, 32, 44, 160, 98, 9] = some (.l [[97], [98]]) := by decide
+example : parseArgT noDb ⟨none, fun _ => none⟩ (.choice [[97], [98, 32, 99]]) [98, 32, 99] = some (.s [98, 32, 99]) ∧
+    parseArgT noDb ⟨none, fun _ => none⟩ (.choice [[97]]) [65] = none := by decide
+
 end MitmVerif.Props.C45
